@@ -372,6 +372,21 @@ def run(c):
     n_cases += multi_model_granularities(c, 12 if c.tier == "quick" else 120)
     n_rej = reject_nontime(c)
     n_cases += sort_key_not_selected(c, 30 if c.tier == "quick" else 300)
+    # several granularities together when a rollup of the model is available: the buckets are still those of the base table (week together with month / quarter / year on
+    # rows around month and year ends; the routing side of this is C08 / C09's subject, the buckets are this property's)
+    import random as _random
+    rows_r = c09.e2e_rows(_random.Random(c.seed * 41 + 9))
+    for p_ in ("week", "day", "month"):
+        for q1, q2 in (("week", "month"), ("month", "week"), ("week", "year"), ("quarter", "week"), ("day", "month"), ("month", "year")):
+            try:
+                routed, rr, rb, sql_r = c09.e2e_two(q1, q2, p_, rows_r)
+            except Exception as e:
+                c.violation("a query at %s and %s with a %s rollup available fails: %s" % (q1, q2, p_, str(e)[:120]), {"kind": "rollup_grans", "q1": q1, "q2": q2, "p": p_, "rows": rows_r})
+                continue
+            n_cases += 1
+            if rr != rb:
+                c.violation("requesting %s and %s together with a %s rollup available does not group by the enclosing %s / %s of each row" % (q1, q2, p_, q1, q2),
+                            {"kind": "rollup_grans", "q1": q1, "q2": q2, "p": p_, "rows": rows_r, "routed": routed, "sql": sql_r[-700:], "differing_rows": [x for x in rr if x not in rb][:3] + [x for x in rb if x not in rr][:3]})
     c.obligation("oracle: spec rows, additivity from the implementation's finer result (%d pairs), default-time-dimension iff (%d cases), rejection of non-time / unknown granularities (%d)" % (n_add, n_def, n_rej),
                  not c.violations, "correspondence")
     c.coverage.update({"evaluations": n_pts + n_cases + n_add + n_def + n_rej, "distinct_nontrivial": multi + n_add,
